@@ -1225,3 +1225,453 @@ Proof.
   rewrite (sqrt_1msin2 (lat * (PI / 180))) by (apply cos_d2r_nonneg; lra).
   fold_geo lat. unfold r2d, d2r, Rdiv. splits; ring.
 Qed.
+
+
+(** * 13. No-altitude mode: the 7-state model is the linearisation of the 2D navigation equations
+
+    The 2D integrator keeps altitude and VD = 0 fixed.  The 7-state error y = (DR1 DR2 DV1 DV2 PHI1 PHI2 PHI3) is
+    lifted onto the constraint surface dr3 = 0, dv3 = VE phi1 - VN phi2 (so that the perturbed state keeps VD = 0);
+    [lift s y] is T32(VN, VE) y (lemma lift_is_T32).  On level trajectories (VD = 0 and the vertical channel of the
+    navigation equations in equilibrium) the generated 7-state matrix plus the reduced remainder is the linearisation. *)
+Record err7 : Type := mkX7 { y0 : R; y1 : R; y2 : R; y3 : R; y4 : R; y5 : R; y6 : R }.
+Definition lift (s : nstate) (y : err7) : err :=
+  mkX (y0 y) (y1 y) 0 (y2 y) (y3 y) (s_VE s * y4 y - s_VN s * y5 y) (y4 y) (y5 y) (y6 y).
+Definition rhs_zero : rhs21 := fun _ _ _ _ _ _ _ _ _ _ _ _ _ _ _ _ _ _ _ _ _ => 0.
+(** the 2D vector field: altitude and vertical velocity do not move *)
+Definition nav_field2 (s : nstate) (m : imu) : nstate :=
+  mkS (app nav_rhs_lat s m) (app nav_rhs_lon s m) 0
+      (app nav_rhs_VN s m) (app nav_rhs_VE s m) 0
+      (app nav_rhs_C00 s m) (app nav_rhs_C01 s m) (app nav_rhs_C02 s m)
+      (app nav_rhs_C10 s m) (app nav_rhs_C11 s m) (app nav_rhs_C12 s m)
+      (app nav_rhs_C20 s m) (app nav_rhs_C21 s m) (app nav_rhs_C22 s m).
+Definition lin2 (g : rhs21) (pr : nstate -> R) (s : nstate) (m : imu) (y : err7) (u : R) : R :=
+  app g (sadd s u (pdelta s (lift s y))) m
+  - pr (pdelta (sadd s u (nav_field2 s m)) (lift (sadd s u (nav_field2 s m)) y)).
+(** level flight: no vertical velocity and the vertical channel in equilibrium,
+    f_D = -g + ((2 Omega + rho) x v)_D: the trajectories the no-altitude integrator can follow *)
+Definition level (s : nstate) (m : imu) : Prop := s_VD s = 0 /\ app nav_rhs_VD s m = 0.
+
+Definition modelR0 (s : nstate) (roll pitch heading : R) (y : err7) : R :=
+  sysmat2d_F00 (s_lat s) (s_lon s) (s_alt s) (s_VN s) (s_VE s) (s_VD s) roll pitch heading * y0 y + sysmat2d_F01 (s_lat s) (s_lon s) (s_alt s) (s_VN s) (s_VE s) (s_VD s) roll pitch heading * y1 y + sysmat2d_F02 (s_lat s) (s_lon s) (s_alt s) (s_VN s) (s_VE s) (s_VD s) roll pitch heading * y2 y + sysmat2d_F03 (s_lat s) (s_lon s) (s_alt s) (s_VN s) (s_VE s) (s_VD s) roll pitch heading * y3 y + sysmat2d_F04 (s_lat s) (s_lon s) (s_alt s) (s_VN s) (s_VE s) (s_VD s) roll pitch heading * y4 y + sysmat2d_F05 (s_lat s) (s_lon s) (s_alt s) (s_VN s) (s_VE s) (s_VD s) roll pitch heading * y5 y + sysmat2d_F06 (s_lat s) (s_lon s) (s_alt s) (s_VN s) (s_VE s) (s_VD s) roll pitch heading * y6 y.
+Definition modelR1 (s : nstate) (roll pitch heading : R) (y : err7) : R :=
+  sysmat2d_F10 (s_lat s) (s_lon s) (s_alt s) (s_VN s) (s_VE s) (s_VD s) roll pitch heading * y0 y + sysmat2d_F11 (s_lat s) (s_lon s) (s_alt s) (s_VN s) (s_VE s) (s_VD s) roll pitch heading * y1 y + sysmat2d_F12 (s_lat s) (s_lon s) (s_alt s) (s_VN s) (s_VE s) (s_VD s) roll pitch heading * y2 y + sysmat2d_F13 (s_lat s) (s_lon s) (s_alt s) (s_VN s) (s_VE s) (s_VD s) roll pitch heading * y3 y + sysmat2d_F14 (s_lat s) (s_lon s) (s_alt s) (s_VN s) (s_VE s) (s_VD s) roll pitch heading * y4 y + sysmat2d_F15 (s_lat s) (s_lon s) (s_alt s) (s_VN s) (s_VE s) (s_VD s) roll pitch heading * y5 y + sysmat2d_F16 (s_lat s) (s_lon s) (s_alt s) (s_VN s) (s_VE s) (s_VD s) roll pitch heading * y6 y.
+Definition modelR2 (s : nstate) (roll pitch heading : R) (y : err7) : R :=
+  sysmat2d_F20 (s_lat s) (s_lon s) (s_alt s) (s_VN s) (s_VE s) (s_VD s) roll pitch heading * y0 y + sysmat2d_F21 (s_lat s) (s_lon s) (s_alt s) (s_VN s) (s_VE s) (s_VD s) roll pitch heading * y1 y + sysmat2d_F22 (s_lat s) (s_lon s) (s_alt s) (s_VN s) (s_VE s) (s_VD s) roll pitch heading * y2 y + sysmat2d_F23 (s_lat s) (s_lon s) (s_alt s) (s_VN s) (s_VE s) (s_VD s) roll pitch heading * y3 y + sysmat2d_F24 (s_lat s) (s_lon s) (s_alt s) (s_VN s) (s_VE s) (s_VD s) roll pitch heading * y4 y + sysmat2d_F25 (s_lat s) (s_lon s) (s_alt s) (s_VN s) (s_VE s) (s_VD s) roll pitch heading * y5 y + sysmat2d_F26 (s_lat s) (s_lon s) (s_alt s) (s_VN s) (s_VE s) (s_VD s) roll pitch heading * y6 y.
+Definition modelR3 (s : nstate) (roll pitch heading : R) (y : err7) : R :=
+  sysmat2d_F30 (s_lat s) (s_lon s) (s_alt s) (s_VN s) (s_VE s) (s_VD s) roll pitch heading * y0 y + sysmat2d_F31 (s_lat s) (s_lon s) (s_alt s) (s_VN s) (s_VE s) (s_VD s) roll pitch heading * y1 y + sysmat2d_F32 (s_lat s) (s_lon s) (s_alt s) (s_VN s) (s_VE s) (s_VD s) roll pitch heading * y2 y + sysmat2d_F33 (s_lat s) (s_lon s) (s_alt s) (s_VN s) (s_VE s) (s_VD s) roll pitch heading * y3 y + sysmat2d_F34 (s_lat s) (s_lon s) (s_alt s) (s_VN s) (s_VE s) (s_VD s) roll pitch heading * y4 y + sysmat2d_F35 (s_lat s) (s_lon s) (s_alt s) (s_VN s) (s_VE s) (s_VD s) roll pitch heading * y5 y + sysmat2d_F36 (s_lat s) (s_lon s) (s_alt s) (s_VN s) (s_VE s) (s_VD s) roll pitch heading * y6 y.
+Definition modelR4 (s : nstate) (roll pitch heading : R) (y : err7) : R :=
+  sysmat2d_F40 (s_lat s) (s_lon s) (s_alt s) (s_VN s) (s_VE s) (s_VD s) roll pitch heading * y0 y + sysmat2d_F41 (s_lat s) (s_lon s) (s_alt s) (s_VN s) (s_VE s) (s_VD s) roll pitch heading * y1 y + sysmat2d_F42 (s_lat s) (s_lon s) (s_alt s) (s_VN s) (s_VE s) (s_VD s) roll pitch heading * y2 y + sysmat2d_F43 (s_lat s) (s_lon s) (s_alt s) (s_VN s) (s_VE s) (s_VD s) roll pitch heading * y3 y + sysmat2d_F44 (s_lat s) (s_lon s) (s_alt s) (s_VN s) (s_VE s) (s_VD s) roll pitch heading * y4 y + sysmat2d_F45 (s_lat s) (s_lon s) (s_alt s) (s_VN s) (s_VE s) (s_VD s) roll pitch heading * y5 y + sysmat2d_F46 (s_lat s) (s_lon s) (s_alt s) (s_VN s) (s_VE s) (s_VD s) roll pitch heading * y6 y.
+Definition modelR5 (s : nstate) (roll pitch heading : R) (y : err7) : R :=
+  sysmat2d_F50 (s_lat s) (s_lon s) (s_alt s) (s_VN s) (s_VE s) (s_VD s) roll pitch heading * y0 y + sysmat2d_F51 (s_lat s) (s_lon s) (s_alt s) (s_VN s) (s_VE s) (s_VD s) roll pitch heading * y1 y + sysmat2d_F52 (s_lat s) (s_lon s) (s_alt s) (s_VN s) (s_VE s) (s_VD s) roll pitch heading * y2 y + sysmat2d_F53 (s_lat s) (s_lon s) (s_alt s) (s_VN s) (s_VE s) (s_VD s) roll pitch heading * y3 y + sysmat2d_F54 (s_lat s) (s_lon s) (s_alt s) (s_VN s) (s_VE s) (s_VD s) roll pitch heading * y4 y + sysmat2d_F55 (s_lat s) (s_lon s) (s_alt s) (s_VN s) (s_VE s) (s_VD s) roll pitch heading * y5 y + sysmat2d_F56 (s_lat s) (s_lon s) (s_alt s) (s_VN s) (s_VE s) (s_VD s) roll pitch heading * y6 y.
+Definition modelR6 (s : nstate) (roll pitch heading : R) (y : err7) : R :=
+  sysmat2d_F60 (s_lat s) (s_lon s) (s_alt s) (s_VN s) (s_VE s) (s_VD s) roll pitch heading * y0 y + sysmat2d_F61 (s_lat s) (s_lon s) (s_alt s) (s_VN s) (s_VE s) (s_VD s) roll pitch heading * y1 y + sysmat2d_F62 (s_lat s) (s_lon s) (s_alt s) (s_VN s) (s_VE s) (s_VD s) roll pitch heading * y2 y + sysmat2d_F63 (s_lat s) (s_lon s) (s_alt s) (s_VN s) (s_VE s) (s_VD s) roll pitch heading * y3 y + sysmat2d_F64 (s_lat s) (s_lon s) (s_alt s) (s_VN s) (s_VE s) (s_VD s) roll pitch heading * y4 y + sysmat2d_F65 (s_lat s) (s_lon s) (s_alt s) (s_VN s) (s_VE s) (s_VD s) roll pitch heading * y5 y + sysmat2d_F66 (s_lat s) (s_lon s) (s_alt s) (s_VN s) (s_VE s) (s_VD s) roll pitch heading * y6 y.
+Definition errdynR0 (s : nstate) (roll pitch heading : R) (y : err7) : R :=
+  modelR0 s roll pitch heading y + negl0 s (lift s y).
+Definition errdynR1 (s : nstate) (roll pitch heading : R) (y : err7) : R :=
+  modelR1 s roll pitch heading y + negl1 s (lift s y).
+Definition errdynR2 (s : nstate) (roll pitch heading : R) (y : err7) : R :=
+  modelR2 s roll pitch heading y + negl3 s (lift s y).
+Definition errdynR3 (s : nstate) (roll pitch heading : R) (y : err7) : R :=
+  modelR3 s roll pitch heading y + negl4 s (lift s y).
+Definition errdynR4 (s : nstate) (roll pitch heading : R) (y : err7) : R :=
+  modelR4 s roll pitch heading y + negl6 s (lift s y).
+Definition errdynR5 (s : nstate) (roll pitch heading : R) (y : err7) : R :=
+  modelR5 s roll pitch heading y + negl7 s (lift s y).
+Definition errdynR6 (s : nstate) (roll pitch heading : R) (y : err7) : R :=
+  modelR6 s roll pitch heading y + negl8 s (lift s y).
+Definition errdynR (s : nstate) (roll pitch heading : R) (y : err7) : err7 :=
+  mkX7 (errdynR0 s roll pitch heading y) (errdynR1 s roll pitch heading y) (errdynR2 s roll pitch heading y) (errdynR3 s roll pitch heading y) (errdynR4 s roll pitch heading y) (errdynR5 s roll pitch heading y) (errdynR6 s roll pitch heading y).
+
+Ltac modelR_tac :=
+  intros s roll pitch heading y;
+  destruct s as [lat lon alt VN VE VD C00 C01 C02 C10 C11 C12 C20 C21 C22];
+  destruct y as [q0 q1 q2 q3 q4 q5 q6];
+  unfold modelR0, modelR1, modelR2, modelR3, modelR4, modelR5, modelR6, lift,
+         sm0, sm1, sm2, sm3, sm4, sm5, sm6, sm7, sm8;
+  cbn [e0 e1 e2 e3 e4 e5 e6 e7 e8 y0 y1 y2 y3 y4 y5 y6 s_lat s_lon s_alt s_VN s_VE s_VD];
+  unfold sysmat2d_F00, sysmat2d_F01, sysmat2d_F02, sysmat2d_F03, sysmat2d_F04, sysmat2d_F05, sysmat2d_F06, sysmat2d_F10, sysmat2d_F11, sysmat2d_F12, sysmat2d_F13, sysmat2d_F14, sysmat2d_F15, sysmat2d_F16, sysmat2d_F20, sysmat2d_F21, sysmat2d_F22, sysmat2d_F23, sysmat2d_F24, sysmat2d_F25, sysmat2d_F26, sysmat2d_F30, sysmat2d_F31, sysmat2d_F32, sysmat2d_F33, sysmat2d_F34, sysmat2d_F35, sysmat2d_F36, sysmat2d_F40, sysmat2d_F41, sysmat2d_F42, sysmat2d_F43, sysmat2d_F44, sysmat2d_F45, sysmat2d_F46, sysmat2d_F50, sysmat2d_F51, sysmat2d_F52, sysmat2d_F53, sysmat2d_F54, sysmat2d_F55, sysmat2d_F56, sysmat2d_F60, sysmat2d_F61, sysmat2d_F62, sysmat2d_F63, sysmat2d_F64, sysmat2d_F65, sysmat2d_F66;
+  repeat autounfold with sysmat2d_db; fold_geo lat;
+  unfold corN, corE, corD, omN, omE, omD, OmN, OmD, grav, rn, re, sphi, cphi, tphi;
+  cbn [s_lat s_lon s_alt s_VN s_VE s_VD];
+  unfold nav_cor_N, nav_cor_E, nav_cor_D, nav_om_N, nav_om_E, nav_om_D,
+    nav_rho_N, nav_rho_E, nav_rho_D, nav_Omega_N, nav_Omega_E, nav_Omega_D;
+  rewrite ?ng_split; unfold RATE_, A_, d2r, Rdiv; ring.
+
+Lemma modelR0_spec : forall s roll pitch heading y, modelR0 s roll pitch heading y = sm0 s (lift s y).
+Proof. modelR_tac. Qed.
+Lemma modelR1_spec : forall s roll pitch heading y, modelR1 s roll pitch heading y = sm1 s (lift s y).
+Proof. modelR_tac. Qed.
+Lemma modelR2_spec : forall s roll pitch heading y, modelR2 s roll pitch heading y = sm3 s (lift s y).
+Proof. modelR_tac. Qed.
+Lemma modelR3_spec : forall s roll pitch heading y, modelR3 s roll pitch heading y = sm4 s (lift s y).
+Proof. modelR_tac. Qed.
+Lemma modelR4_spec : forall s roll pitch heading y, modelR4 s roll pitch heading y = sm6 s (lift s y).
+Proof. modelR_tac. Qed.
+Lemma modelR5_spec : forall s roll pitch heading y, modelR5 s roll pitch heading y = sm7 s (lift s y).
+Proof. modelR_tac. Qed.
+Lemma modelR6_spec : forall s roll pitch heading y, modelR6 s roll pitch heading y = sm8 s (lift s y).
+Proof. modelR_tac. Qed.
+
+Lemma lift_is_T32 : forall s y,
+  e0 (lift s y) = T32m (s_VN s) (s_VE s) 0%nat 0%nat * y0 y + T32m (s_VN s) (s_VE s) 0%nat 1%nat * y1 y + T32m (s_VN s) (s_VE s) 0%nat 2%nat * y2 y + T32m (s_VN s) (s_VE s) 0%nat 3%nat * y3 y + T32m (s_VN s) (s_VE s) 0%nat 4%nat * y4 y + T32m (s_VN s) (s_VE s) 0%nat 5%nat * y5 y + T32m (s_VN s) (s_VE s) 0%nat 6%nat * y6 y /\
+  e1 (lift s y) = T32m (s_VN s) (s_VE s) 1%nat 0%nat * y0 y + T32m (s_VN s) (s_VE s) 1%nat 1%nat * y1 y + T32m (s_VN s) (s_VE s) 1%nat 2%nat * y2 y + T32m (s_VN s) (s_VE s) 1%nat 3%nat * y3 y + T32m (s_VN s) (s_VE s) 1%nat 4%nat * y4 y + T32m (s_VN s) (s_VE s) 1%nat 5%nat * y5 y + T32m (s_VN s) (s_VE s) 1%nat 6%nat * y6 y /\
+  e2 (lift s y) = T32m (s_VN s) (s_VE s) 2%nat 0%nat * y0 y + T32m (s_VN s) (s_VE s) 2%nat 1%nat * y1 y + T32m (s_VN s) (s_VE s) 2%nat 2%nat * y2 y + T32m (s_VN s) (s_VE s) 2%nat 3%nat * y3 y + T32m (s_VN s) (s_VE s) 2%nat 4%nat * y4 y + T32m (s_VN s) (s_VE s) 2%nat 5%nat * y5 y + T32m (s_VN s) (s_VE s) 2%nat 6%nat * y6 y /\
+  e3 (lift s y) = T32m (s_VN s) (s_VE s) 3%nat 0%nat * y0 y + T32m (s_VN s) (s_VE s) 3%nat 1%nat * y1 y + T32m (s_VN s) (s_VE s) 3%nat 2%nat * y2 y + T32m (s_VN s) (s_VE s) 3%nat 3%nat * y3 y + T32m (s_VN s) (s_VE s) 3%nat 4%nat * y4 y + T32m (s_VN s) (s_VE s) 3%nat 5%nat * y5 y + T32m (s_VN s) (s_VE s) 3%nat 6%nat * y6 y /\
+  e4 (lift s y) = T32m (s_VN s) (s_VE s) 4%nat 0%nat * y0 y + T32m (s_VN s) (s_VE s) 4%nat 1%nat * y1 y + T32m (s_VN s) (s_VE s) 4%nat 2%nat * y2 y + T32m (s_VN s) (s_VE s) 4%nat 3%nat * y3 y + T32m (s_VN s) (s_VE s) 4%nat 4%nat * y4 y + T32m (s_VN s) (s_VE s) 4%nat 5%nat * y5 y + T32m (s_VN s) (s_VE s) 4%nat 6%nat * y6 y /\
+  e5 (lift s y) = T32m (s_VN s) (s_VE s) 5%nat 0%nat * y0 y + T32m (s_VN s) (s_VE s) 5%nat 1%nat * y1 y + T32m (s_VN s) (s_VE s) 5%nat 2%nat * y2 y + T32m (s_VN s) (s_VE s) 5%nat 3%nat * y3 y + T32m (s_VN s) (s_VE s) 5%nat 4%nat * y4 y + T32m (s_VN s) (s_VE s) 5%nat 5%nat * y5 y + T32m (s_VN s) (s_VE s) 5%nat 6%nat * y6 y /\
+  e6 (lift s y) = T32m (s_VN s) (s_VE s) 6%nat 0%nat * y0 y + T32m (s_VN s) (s_VE s) 6%nat 1%nat * y1 y + T32m (s_VN s) (s_VE s) 6%nat 2%nat * y2 y + T32m (s_VN s) (s_VE s) 6%nat 3%nat * y3 y + T32m (s_VN s) (s_VE s) 6%nat 4%nat * y4 y + T32m (s_VN s) (s_VE s) 6%nat 5%nat * y5 y + T32m (s_VN s) (s_VE s) 6%nat 6%nat * y6 y /\
+  e7 (lift s y) = T32m (s_VN s) (s_VE s) 7%nat 0%nat * y0 y + T32m (s_VN s) (s_VE s) 7%nat 1%nat * y1 y + T32m (s_VN s) (s_VE s) 7%nat 2%nat * y2 y + T32m (s_VN s) (s_VE s) 7%nat 3%nat * y3 y + T32m (s_VN s) (s_VE s) 7%nat 4%nat * y4 y + T32m (s_VN s) (s_VE s) 7%nat 5%nat * y5 y + T32m (s_VN s) (s_VE s) 7%nat 6%nat * y6 y /\
+  e8 (lift s y) = T32m (s_VN s) (s_VE s) 8%nat 0%nat * y0 y + T32m (s_VN s) (s_VE s) 8%nat 1%nat * y1 y + T32m (s_VN s) (s_VE s) 8%nat 2%nat * y2 y + T32m (s_VN s) (s_VE s) 8%nat 3%nat * y3 y + T32m (s_VN s) (s_VE s) 8%nat 4%nat * y4 y + T32m (s_VN s) (s_VE s) 8%nat 5%nat * y5 y + T32m (s_VN s) (s_VE s) 8%nat 6%nat * y6 y.
+Proof.
+  intros s y. destruct y as [q0 q1 q2 q3 q4 q5 q6]. unfold lift. cbn [e0 e1 e2 e3 e4 e5 e6 e7 e8 y0 y1 y2 y3 y4 y5 y6 T32m].
+  unfold tr32_t00, tr32_t01, tr32_t02, tr32_t03, tr32_t04, tr32_t05, tr32_t06, tr32_t10, tr32_t11, tr32_t12, tr32_t13, tr32_t14, tr32_t15, tr32_t16, tr32_t20, tr32_t21, tr32_t22, tr32_t23, tr32_t24, tr32_t25, tr32_t26, tr32_t30, tr32_t31, tr32_t32, tr32_t33, tr32_t34, tr32_t35, tr32_t36, tr32_t40, tr32_t41, tr32_t42, tr32_t43, tr32_t44, tr32_t45, tr32_t46, tr32_t50, tr32_t51, tr32_t52, tr32_t53, tr32_t54, tr32_t55, tr32_t56, tr32_t60, tr32_t61, tr32_t62, tr32_t63, tr32_t64, tr32_t65, tr32_t66, tr32_t70, tr32_t71, tr32_t72, tr32_t73, tr32_t74, tr32_t75, tr32_t76, tr32_t80, tr32_t81, tr32_t82, tr32_t83, tr32_t84, tr32_t85, tr32_t86. splits; ring.
+Qed.
+
+Lemma field2_eq : forall s m, level s m -> nav_field2 s m = nav_field s m.
+Proof.
+  intros s m [HVD Hlev]. unfold nav_field2, nav_field. apply mkS_ext; try reflexivity.
+  - unfold app, nav_rhs_alt. rewrite HVD. ring.
+  - symmetry. exact Hlev.
+Qed.
+
+(** (F + N) T32 y agrees with T32 (F2 + N2) y on the seven retained states, and its DR3 component vanishes *)
+Lemma errdyn_lift : forall s roll pitch heading y,
+  errdyn0 s roll pitch heading (lift s y) = errdynR0 s roll pitch heading y /\
+  errdyn1 s roll pitch heading (lift s y) = errdynR1 s roll pitch heading y /\
+  errdyn3 s roll pitch heading (lift s y) = errdynR2 s roll pitch heading y /\
+  errdyn4 s roll pitch heading (lift s y) = errdynR3 s roll pitch heading y /\
+  errdyn6 s roll pitch heading (lift s y) = errdynR4 s roll pitch heading y /\
+  errdyn7 s roll pitch heading (lift s y) = errdynR5 s roll pitch heading y /\
+  errdyn8 s roll pitch heading (lift s y) = errdynR6 s roll pitch heading y /\
+  errdyn2 s roll pitch heading (lift s y) = 0.
+Proof.
+  intros s roll pitch heading y.
+  unfold errdyn0, errdyn1, errdyn2, errdyn3, errdyn4, errdyn6, errdyn7, errdyn8,
+    errdynR0, errdynR1, errdynR2, errdynR3, errdynR4, errdynR5, errdynR6.
+  rewrite model0_spec, model1_spec, model2_spec, model3_spec, model4_spec, model6_spec, model7_spec, model8_spec,
+    modelR0_spec, modelR1_spec, modelR2_spec, modelR3_spec, modelR4_spec, modelR5_spec, modelR6_spec.
+  splits; try reflexivity.
+  unfold sm2, negl2, lift; cbn [e5 e6 e7]. ring.
+Qed.
+
+Ltac cbn_all :=
+  cbn [s_lat s_lon s_alt s_VN s_VE s_VD s_C00 s_C01 s_C02 s_C10 s_C11 s_C12 s_C20 s_C21 s_C22
+       i_w0 i_w1 i_w2 i_f0 i_f1 i_f2 e0 e1 e2 e3 e4 e5 e6 e7 e8 y0 y1 y2 y3 y4 y5 y6].
+
+
+
+(* the chart component pr does not look at the DV3 entry of the error vector *)
+Definition same_but5 (x x' : err) : Prop :=
+  e0 x = e0 x' /\ e1 x = e1 x' /\ e2 x = e2 x' /\ e3 x = e3 x' /\ e4 x = e4 x' /\
+  e6 x = e6 x' /\ e7 x = e7 x' /\ e8 x = e8 x'.
+Definition ignores5 (pr : nstate -> R) : Prop :=
+  forall s x x', same_but5 x x' -> pr (pdelta s x) = pr (pdelta s x').
+Ltac ign5 := intros s x x' (H0 & H1 & H2 & H3 & H4 & H6 & H7 & H8); unfold pdelta; cbn_all;
+  rewrite ?H0, ?H1, ?H2, ?H3, ?H4, ?H6, ?H7, ?H8; reflexivity.
+Lemma lin2_lin_gen : forall g pr s m y u, ignores5 pr -> level s m ->
+  lin2 g pr s m y u = lin g pr s m (lift s y) u.
+Proof.
+  intros g pr s m y u Hpr Hlev. unfold lin2, lin. rewrite (field2_eq s m Hlev). f_equal.
+  apply Hpr. unfold same_but5, lift; cbn_all. repeat split; reflexivity.
+Qed.
+Lemma alt_rate_zero : forall s m y u, level s m ->
+  app rhs_zero (sadd s u (pdelta s (lift s y))) m = app nav_rhs_alt (sadd s u (pdelta s (lift s y))) m.
+Proof.
+  intros s m y u [HVD _]. destruct s as [lat lon alt VN VE VD C00 C01 C02 C10 C11 C12 C20 C21 C22].
+  destruct y as [q0 q1 q2 q3 q4 q5 q6]. cbn [s_VD] in HVD. subst VD.
+  unfold app, rhs_zero, nav_rhs_alt, sadd, pdelta, lift; cbn_all. unfold pd_v2, cross2. ring.
+Qed.
+Lemma lin2_VD_zero : forall s m y u, s_VD s = 0 -> lin2 rhs_zero s_VD s m y u = 0.
+Proof.
+  intros s m y u HVD. destruct s as [lat lon alt VN VE VD C00 C01 C02 C10 C11 C12 C20 C21 C22].
+  destruct y as [q0 q1 q2 q3 q4 q5 q6]. cbn [s_VD] in HVD. subst VD.
+  unfold lin2, nav_field2, app, rhs_zero, pdelta, lift, sadd; cbn_all. unfold pd_v2, cross2. ring.
+Qed.
+
+Lemma ign5_lat : ignores5 s_lat.
+Proof. ign5. Qed.
+Lemma lin2_lin_lat : forall s m y u, level s m ->
+  lin2 nav_rhs_lat s_lat s m y u = lin nav_rhs_lat s_lat s m (lift s y) u.
+Proof. intros s m y u Hlev. apply lin2_lin_gen; [exact ign5_lat | exact Hlev]. Qed.
+Lemma ign5_lon : ignores5 s_lon.
+Proof. ign5. Qed.
+Lemma lin2_lin_lon : forall s m y u, level s m ->
+  lin2 nav_rhs_lon s_lon s m y u = lin nav_rhs_lon s_lon s m (lift s y) u.
+Proof. intros s m y u Hlev. apply lin2_lin_gen; [exact ign5_lon | exact Hlev]. Qed.
+Lemma ign5_alt : ignores5 s_alt.
+Proof. ign5. Qed.
+Lemma lin2_lin_alt : forall s m y u, level s m ->
+  lin2 rhs_zero s_alt s m y u = lin nav_rhs_alt s_alt s m (lift s y) u.
+Proof.
+  intros s m y u Hlev. rewrite <- (lin2_lin_gen nav_rhs_alt s_alt s m y u ign5_alt Hlev).
+  unfold lin2. rewrite (alt_rate_zero s m y u Hlev). reflexivity.
+Qed.
+Lemma ign5_VN : ignores5 s_VN.
+Proof. ign5. Qed.
+Lemma lin2_lin_VN : forall s m y u, level s m ->
+  lin2 nav_rhs_VN s_VN s m y u = lin nav_rhs_VN s_VN s m (lift s y) u.
+Proof. intros s m y u Hlev. apply lin2_lin_gen; [exact ign5_VN | exact Hlev]. Qed.
+Lemma ign5_VE : ignores5 s_VE.
+Proof. ign5. Qed.
+Lemma lin2_lin_VE : forall s m y u, level s m ->
+  lin2 nav_rhs_VE s_VE s m y u = lin nav_rhs_VE s_VE s m (lift s y) u.
+Proof. intros s m y u Hlev. apply lin2_lin_gen; [exact ign5_VE | exact Hlev]. Qed.
+Lemma ign5_C00 : ignores5 s_C00.
+Proof. ign5. Qed.
+Lemma lin2_lin_C00 : forall s m y u, level s m ->
+  lin2 nav_rhs_C00 s_C00 s m y u = lin nav_rhs_C00 s_C00 s m (lift s y) u.
+Proof. intros s m y u Hlev. apply lin2_lin_gen; [exact ign5_C00 | exact Hlev]. Qed.
+Lemma ign5_C01 : ignores5 s_C01.
+Proof. ign5. Qed.
+Lemma lin2_lin_C01 : forall s m y u, level s m ->
+  lin2 nav_rhs_C01 s_C01 s m y u = lin nav_rhs_C01 s_C01 s m (lift s y) u.
+Proof. intros s m y u Hlev. apply lin2_lin_gen; [exact ign5_C01 | exact Hlev]. Qed.
+Lemma ign5_C02 : ignores5 s_C02.
+Proof. ign5. Qed.
+Lemma lin2_lin_C02 : forall s m y u, level s m ->
+  lin2 nav_rhs_C02 s_C02 s m y u = lin nav_rhs_C02 s_C02 s m (lift s y) u.
+Proof. intros s m y u Hlev. apply lin2_lin_gen; [exact ign5_C02 | exact Hlev]. Qed.
+Lemma ign5_C10 : ignores5 s_C10.
+Proof. ign5. Qed.
+Lemma lin2_lin_C10 : forall s m y u, level s m ->
+  lin2 nav_rhs_C10 s_C10 s m y u = lin nav_rhs_C10 s_C10 s m (lift s y) u.
+Proof. intros s m y u Hlev. apply lin2_lin_gen; [exact ign5_C10 | exact Hlev]. Qed.
+Lemma ign5_C11 : ignores5 s_C11.
+Proof. ign5. Qed.
+Lemma lin2_lin_C11 : forall s m y u, level s m ->
+  lin2 nav_rhs_C11 s_C11 s m y u = lin nav_rhs_C11 s_C11 s m (lift s y) u.
+Proof. intros s m y u Hlev. apply lin2_lin_gen; [exact ign5_C11 | exact Hlev]. Qed.
+Lemma ign5_C12 : ignores5 s_C12.
+Proof. ign5. Qed.
+Lemma lin2_lin_C12 : forall s m y u, level s m ->
+  lin2 nav_rhs_C12 s_C12 s m y u = lin nav_rhs_C12 s_C12 s m (lift s y) u.
+Proof. intros s m y u Hlev. apply lin2_lin_gen; [exact ign5_C12 | exact Hlev]. Qed.
+Lemma ign5_C20 : ignores5 s_C20.
+Proof. ign5. Qed.
+Lemma lin2_lin_C20 : forall s m y u, level s m ->
+  lin2 nav_rhs_C20 s_C20 s m y u = lin nav_rhs_C20 s_C20 s m (lift s y) u.
+Proof. intros s m y u Hlev. apply lin2_lin_gen; [exact ign5_C20 | exact Hlev]. Qed.
+Lemma ign5_C21 : ignores5 s_C21.
+Proof. ign5. Qed.
+Lemma lin2_lin_C21 : forall s m y u, level s m ->
+  lin2 nav_rhs_C21 s_C21 s m y u = lin nav_rhs_C21 s_C21 s m (lift s y) u.
+Proof. intros s m y u Hlev. apply lin2_lin_gen; [exact ign5_C21 | exact Hlev]. Qed.
+Lemma ign5_C22 : ignores5 s_C22.
+Proof. ign5. Qed.
+Lemma lin2_lin_C22 : forall s m y u, level s m ->
+  lin2 nav_rhs_C22 s_C22 s m y u = lin nav_rhs_C22 s_C22 s m (lift s y) u.
+Proof. intros s m y u Hlev. apply lin2_lin_gen; [exact ign5_C22 | exact Hlev]. Qed.
+Lemma row2_lat : forall s roll pitch heading m y, dom s -> level s m ->
+  is_derive (lin2 nav_rhs_lat s_lat s m y) 0 (s_lat (pdelta s (lift s (errdynR s roll pitch heading y)))).
+Proof.
+  intros s roll pitch heading m y Hdom Hlev.
+  apply is_derive_ext with (f := lin nav_rhs_lat s_lat s m (lift s y));
+    [intro u; symmetry; apply lin2_lin_lat; exact Hlev|].
+  replace (s_lat (pdelta s (lift s (errdynR s roll pitch heading y))))
+    with (s_lat (pdelta s (errdyn s roll pitch heading (lift s y)))); [apply row_lat; exact Hdom|].
+  pose proof (errdyn_lift s roll pitch heading y) as (E0 & E1 & E3 & E4 & E6 & E7 & E8 & E2).
+  unfold pdelta, errdyn, errdynR; cbn_all. rewrite ?E0, ?E1, ?E2, ?E3, ?E4, ?E6, ?E7, ?E8.
+  unfold lift; cbn_all. unfold pd_lat, pd_lon, pd_alt, pd_v0, pd_v1, pd_v2. try reflexivity; ring.
+Qed.
+Lemma row2_lon : forall s roll pitch heading m y, dom s -> level s m ->
+  is_derive (lin2 nav_rhs_lon s_lon s m y) 0 (s_lon (pdelta s (lift s (errdynR s roll pitch heading y)))).
+Proof.
+  intros s roll pitch heading m y Hdom Hlev.
+  apply is_derive_ext with (f := lin nav_rhs_lon s_lon s m (lift s y));
+    [intro u; symmetry; apply lin2_lin_lon; exact Hlev|].
+  replace (s_lon (pdelta s (lift s (errdynR s roll pitch heading y))))
+    with (s_lon (pdelta s (errdyn s roll pitch heading (lift s y)))); [apply row_lon; exact Hdom|].
+  pose proof (errdyn_lift s roll pitch heading y) as (E0 & E1 & E3 & E4 & E6 & E7 & E8 & E2).
+  unfold pdelta, errdyn, errdynR; cbn_all. rewrite ?E0, ?E1, ?E2, ?E3, ?E4, ?E6, ?E7, ?E8.
+  unfold lift; cbn_all. unfold pd_lat, pd_lon, pd_alt, pd_v0, pd_v1, pd_v2. try reflexivity; ring.
+Qed.
+Lemma row2_alt : forall s roll pitch heading m y, dom s -> level s m ->
+  is_derive (lin2 rhs_zero s_alt s m y) 0 (s_alt (pdelta s (lift s (errdynR s roll pitch heading y)))).
+Proof.
+  intros s roll pitch heading m y Hdom Hlev.
+  apply is_derive_ext with (f := lin nav_rhs_alt s_alt s m (lift s y));
+    [intro u; symmetry; apply lin2_lin_alt; exact Hlev|].
+  replace (s_alt (pdelta s (lift s (errdynR s roll pitch heading y))))
+    with (s_alt (pdelta s (errdyn s roll pitch heading (lift s y)))); [apply row_alt; exact Hdom|].
+  pose proof (errdyn_lift s roll pitch heading y) as (E0 & E1 & E3 & E4 & E6 & E7 & E8 & E2).
+  unfold pdelta, errdyn, errdynR; cbn_all. rewrite ?E0, ?E1, ?E2, ?E3, ?E4, ?E6, ?E7, ?E8.
+  unfold lift; cbn_all. unfold pd_lat, pd_lon, pd_alt, pd_v0, pd_v1, pd_v2. try reflexivity; ring.
+Qed.
+Lemma row2_VN : forall s roll pitch heading m y, dom s -> level s m ->
+  is_derive (lin2 nav_rhs_VN s_VN s m y) 0 (s_VN (pdelta s (lift s (errdynR s roll pitch heading y)))).
+Proof.
+  intros s roll pitch heading m y Hdom Hlev.
+  apply is_derive_ext with (f := lin nav_rhs_VN s_VN s m (lift s y));
+    [intro u; symmetry; apply lin2_lin_VN; exact Hlev|].
+  replace (s_VN (pdelta s (lift s (errdynR s roll pitch heading y))))
+    with (s_VN (pdelta s (errdyn s roll pitch heading (lift s y)))); [apply row_VN; exact Hdom|].
+  pose proof (errdyn_lift s roll pitch heading y) as (E0 & E1 & E3 & E4 & E6 & E7 & E8 & E2).
+  unfold pdelta, errdyn, errdynR; cbn_all. rewrite ?E0, ?E1, ?E2, ?E3, ?E4, ?E6, ?E7, ?E8.
+  unfold lift; cbn_all. unfold pd_lat, pd_lon, pd_alt, pd_v0, pd_v1, pd_v2. try reflexivity; ring.
+Qed.
+Lemma row2_VE : forall s roll pitch heading m y, dom s -> level s m ->
+  is_derive (lin2 nav_rhs_VE s_VE s m y) 0 (s_VE (pdelta s (lift s (errdynR s roll pitch heading y)))).
+Proof.
+  intros s roll pitch heading m y Hdom Hlev.
+  apply is_derive_ext with (f := lin nav_rhs_VE s_VE s m (lift s y));
+    [intro u; symmetry; apply lin2_lin_VE; exact Hlev|].
+  replace (s_VE (pdelta s (lift s (errdynR s roll pitch heading y))))
+    with (s_VE (pdelta s (errdyn s roll pitch heading (lift s y)))); [apply row_VE; exact Hdom|].
+  pose proof (errdyn_lift s roll pitch heading y) as (E0 & E1 & E3 & E4 & E6 & E7 & E8 & E2).
+  unfold pdelta, errdyn, errdynR; cbn_all. rewrite ?E0, ?E1, ?E2, ?E3, ?E4, ?E6, ?E7, ?E8.
+  unfold lift; cbn_all. unfold pd_lat, pd_lon, pd_alt, pd_v0, pd_v1, pd_v2. try reflexivity; ring.
+Qed.
+Lemma row2_VD : forall s roll pitch heading m y, dom s -> level s m ->
+  is_derive (lin2 rhs_zero s_VD s m y) 0 (s_VD (pdelta s (lift s (errdynR s roll pitch heading y)))).
+Proof.
+  intros s roll pitch heading m y Hdom [HVD Hlev].
+  apply is_derive_ext with (f := fun _ : R => 0).
+  - intro u. symmetry. apply lin2_VD_zero. exact HVD.
+  - replace (s_VD (pdelta s (lift s (errdynR s roll pitch heading y)))) with 0; [apply @is_derive_const|].
+    destruct s as [lat lon alt VN VE VD C00 C01 C02 C10 C11 C12 C20 C21 C22]. cbn [s_VD] in HVD. subst VD.
+    unfold pdelta, lift; cbn_all. unfold pd_v2, cross2. ring.
+Qed.
+Lemma row2_C00 : forall s roll pitch heading m y, dom s -> level s m ->
+  is_derive (lin2 nav_rhs_C00 s_C00 s m y) 0 (s_C00 (pdelta s (lift s (errdynR s roll pitch heading y)))).
+Proof.
+  intros s roll pitch heading m y Hdom Hlev.
+  apply is_derive_ext with (f := lin nav_rhs_C00 s_C00 s m (lift s y));
+    [intro u; symmetry; apply lin2_lin_C00; exact Hlev|].
+  replace (s_C00 (pdelta s (lift s (errdynR s roll pitch heading y))))
+    with (s_C00 (pdelta s (errdyn s roll pitch heading (lift s y)))); [apply row_C00; exact Hdom|].
+  pose proof (errdyn_lift s roll pitch heading y) as (E0 & E1 & E3 & E4 & E6 & E7 & E8 & E2).
+  unfold pdelta, errdyn, errdynR; cbn_all. rewrite ?E0, ?E1, ?E2, ?E3, ?E4, ?E6, ?E7, ?E8.
+  unfold lift; cbn_all. unfold pd_lat, pd_lon, pd_alt, pd_v0, pd_v1, pd_v2. try reflexivity; ring.
+Qed.
+Lemma row2_C01 : forall s roll pitch heading m y, dom s -> level s m ->
+  is_derive (lin2 nav_rhs_C01 s_C01 s m y) 0 (s_C01 (pdelta s (lift s (errdynR s roll pitch heading y)))).
+Proof.
+  intros s roll pitch heading m y Hdom Hlev.
+  apply is_derive_ext with (f := lin nav_rhs_C01 s_C01 s m (lift s y));
+    [intro u; symmetry; apply lin2_lin_C01; exact Hlev|].
+  replace (s_C01 (pdelta s (lift s (errdynR s roll pitch heading y))))
+    with (s_C01 (pdelta s (errdyn s roll pitch heading (lift s y)))); [apply row_C01; exact Hdom|].
+  pose proof (errdyn_lift s roll pitch heading y) as (E0 & E1 & E3 & E4 & E6 & E7 & E8 & E2).
+  unfold pdelta, errdyn, errdynR; cbn_all. rewrite ?E0, ?E1, ?E2, ?E3, ?E4, ?E6, ?E7, ?E8.
+  unfold lift; cbn_all. unfold pd_lat, pd_lon, pd_alt, pd_v0, pd_v1, pd_v2. try reflexivity; ring.
+Qed.
+Lemma row2_C02 : forall s roll pitch heading m y, dom s -> level s m ->
+  is_derive (lin2 nav_rhs_C02 s_C02 s m y) 0 (s_C02 (pdelta s (lift s (errdynR s roll pitch heading y)))).
+Proof.
+  intros s roll pitch heading m y Hdom Hlev.
+  apply is_derive_ext with (f := lin nav_rhs_C02 s_C02 s m (lift s y));
+    [intro u; symmetry; apply lin2_lin_C02; exact Hlev|].
+  replace (s_C02 (pdelta s (lift s (errdynR s roll pitch heading y))))
+    with (s_C02 (pdelta s (errdyn s roll pitch heading (lift s y)))); [apply row_C02; exact Hdom|].
+  pose proof (errdyn_lift s roll pitch heading y) as (E0 & E1 & E3 & E4 & E6 & E7 & E8 & E2).
+  unfold pdelta, errdyn, errdynR; cbn_all. rewrite ?E0, ?E1, ?E2, ?E3, ?E4, ?E6, ?E7, ?E8.
+  unfold lift; cbn_all. unfold pd_lat, pd_lon, pd_alt, pd_v0, pd_v1, pd_v2. try reflexivity; ring.
+Qed.
+Lemma row2_C10 : forall s roll pitch heading m y, dom s -> level s m ->
+  is_derive (lin2 nav_rhs_C10 s_C10 s m y) 0 (s_C10 (pdelta s (lift s (errdynR s roll pitch heading y)))).
+Proof.
+  intros s roll pitch heading m y Hdom Hlev.
+  apply is_derive_ext with (f := lin nav_rhs_C10 s_C10 s m (lift s y));
+    [intro u; symmetry; apply lin2_lin_C10; exact Hlev|].
+  replace (s_C10 (pdelta s (lift s (errdynR s roll pitch heading y))))
+    with (s_C10 (pdelta s (errdyn s roll pitch heading (lift s y)))); [apply row_C10; exact Hdom|].
+  pose proof (errdyn_lift s roll pitch heading y) as (E0 & E1 & E3 & E4 & E6 & E7 & E8 & E2).
+  unfold pdelta, errdyn, errdynR; cbn_all. rewrite ?E0, ?E1, ?E2, ?E3, ?E4, ?E6, ?E7, ?E8.
+  unfold lift; cbn_all. unfold pd_lat, pd_lon, pd_alt, pd_v0, pd_v1, pd_v2. try reflexivity; ring.
+Qed.
+Lemma row2_C11 : forall s roll pitch heading m y, dom s -> level s m ->
+  is_derive (lin2 nav_rhs_C11 s_C11 s m y) 0 (s_C11 (pdelta s (lift s (errdynR s roll pitch heading y)))).
+Proof.
+  intros s roll pitch heading m y Hdom Hlev.
+  apply is_derive_ext with (f := lin nav_rhs_C11 s_C11 s m (lift s y));
+    [intro u; symmetry; apply lin2_lin_C11; exact Hlev|].
+  replace (s_C11 (pdelta s (lift s (errdynR s roll pitch heading y))))
+    with (s_C11 (pdelta s (errdyn s roll pitch heading (lift s y)))); [apply row_C11; exact Hdom|].
+  pose proof (errdyn_lift s roll pitch heading y) as (E0 & E1 & E3 & E4 & E6 & E7 & E8 & E2).
+  unfold pdelta, errdyn, errdynR; cbn_all. rewrite ?E0, ?E1, ?E2, ?E3, ?E4, ?E6, ?E7, ?E8.
+  unfold lift; cbn_all. unfold pd_lat, pd_lon, pd_alt, pd_v0, pd_v1, pd_v2. try reflexivity; ring.
+Qed.
+Lemma row2_C12 : forall s roll pitch heading m y, dom s -> level s m ->
+  is_derive (lin2 nav_rhs_C12 s_C12 s m y) 0 (s_C12 (pdelta s (lift s (errdynR s roll pitch heading y)))).
+Proof.
+  intros s roll pitch heading m y Hdom Hlev.
+  apply is_derive_ext with (f := lin nav_rhs_C12 s_C12 s m (lift s y));
+    [intro u; symmetry; apply lin2_lin_C12; exact Hlev|].
+  replace (s_C12 (pdelta s (lift s (errdynR s roll pitch heading y))))
+    with (s_C12 (pdelta s (errdyn s roll pitch heading (lift s y)))); [apply row_C12; exact Hdom|].
+  pose proof (errdyn_lift s roll pitch heading y) as (E0 & E1 & E3 & E4 & E6 & E7 & E8 & E2).
+  unfold pdelta, errdyn, errdynR; cbn_all. rewrite ?E0, ?E1, ?E2, ?E3, ?E4, ?E6, ?E7, ?E8.
+  unfold lift; cbn_all. unfold pd_lat, pd_lon, pd_alt, pd_v0, pd_v1, pd_v2. try reflexivity; ring.
+Qed.
+Lemma row2_C20 : forall s roll pitch heading m y, dom s -> level s m ->
+  is_derive (lin2 nav_rhs_C20 s_C20 s m y) 0 (s_C20 (pdelta s (lift s (errdynR s roll pitch heading y)))).
+Proof.
+  intros s roll pitch heading m y Hdom Hlev.
+  apply is_derive_ext with (f := lin nav_rhs_C20 s_C20 s m (lift s y));
+    [intro u; symmetry; apply lin2_lin_C20; exact Hlev|].
+  replace (s_C20 (pdelta s (lift s (errdynR s roll pitch heading y))))
+    with (s_C20 (pdelta s (errdyn s roll pitch heading (lift s y)))); [apply row_C20; exact Hdom|].
+  pose proof (errdyn_lift s roll pitch heading y) as (E0 & E1 & E3 & E4 & E6 & E7 & E8 & E2).
+  unfold pdelta, errdyn, errdynR; cbn_all. rewrite ?E0, ?E1, ?E2, ?E3, ?E4, ?E6, ?E7, ?E8.
+  unfold lift; cbn_all. unfold pd_lat, pd_lon, pd_alt, pd_v0, pd_v1, pd_v2. try reflexivity; ring.
+Qed.
+Lemma row2_C21 : forall s roll pitch heading m y, dom s -> level s m ->
+  is_derive (lin2 nav_rhs_C21 s_C21 s m y) 0 (s_C21 (pdelta s (lift s (errdynR s roll pitch heading y)))).
+Proof.
+  intros s roll pitch heading m y Hdom Hlev.
+  apply is_derive_ext with (f := lin nav_rhs_C21 s_C21 s m (lift s y));
+    [intro u; symmetry; apply lin2_lin_C21; exact Hlev|].
+  replace (s_C21 (pdelta s (lift s (errdynR s roll pitch heading y))))
+    with (s_C21 (pdelta s (errdyn s roll pitch heading (lift s y)))); [apply row_C21; exact Hdom|].
+  pose proof (errdyn_lift s roll pitch heading y) as (E0 & E1 & E3 & E4 & E6 & E7 & E8 & E2).
+  unfold pdelta, errdyn, errdynR; cbn_all. rewrite ?E0, ?E1, ?E2, ?E3, ?E4, ?E6, ?E7, ?E8.
+  unfold lift; cbn_all. unfold pd_lat, pd_lon, pd_alt, pd_v0, pd_v1, pd_v2. try reflexivity; ring.
+Qed.
+Lemma row2_C22 : forall s roll pitch heading m y, dom s -> level s m ->
+  is_derive (lin2 nav_rhs_C22 s_C22 s m y) 0 (s_C22 (pdelta s (lift s (errdynR s roll pitch heading y)))).
+Proof.
+  intros s roll pitch heading m y Hdom Hlev.
+  apply is_derive_ext with (f := lin nav_rhs_C22 s_C22 s m (lift s y));
+    [intro u; symmetry; apply lin2_lin_C22; exact Hlev|].
+  replace (s_C22 (pdelta s (lift s (errdynR s roll pitch heading y))))
+    with (s_C22 (pdelta s (errdyn s roll pitch heading (lift s y)))); [apply row_C22; exact Hdom|].
+  pose proof (errdyn_lift s roll pitch heading y) as (E0 & E1 & E3 & E4 & E6 & E7 & E8 & E2).
+  unfold pdelta, errdyn, errdynR; cbn_all. rewrite ?E0, ?E1, ?E2, ?E3, ?E4, ?E6, ?E7, ?E8.
+  unfold lift; cbn_all. unfold pd_lat, pd_lon, pd_alt, pd_v0, pd_v1, pd_v2. try reflexivity; ring.
+Qed.
+
+Lemma errdyn2d_is_linearisation : forall s roll pitch heading m y, dom s -> level s m ->
+  is_derive (lin2 nav_rhs_lat s_lat s m y) 0 (s_lat (pdelta s (lift s (errdynR s roll pitch heading y)))) /\
+  is_derive (lin2 nav_rhs_lon s_lon s m y) 0 (s_lon (pdelta s (lift s (errdynR s roll pitch heading y)))) /\
+  is_derive (lin2 rhs_zero s_alt s m y) 0 (s_alt (pdelta s (lift s (errdynR s roll pitch heading y)))) /\
+  is_derive (lin2 nav_rhs_VN s_VN s m y) 0 (s_VN (pdelta s (lift s (errdynR s roll pitch heading y)))) /\
+  is_derive (lin2 nav_rhs_VE s_VE s m y) 0 (s_VE (pdelta s (lift s (errdynR s roll pitch heading y)))) /\
+  is_derive (lin2 rhs_zero s_VD s m y) 0 (s_VD (pdelta s (lift s (errdynR s roll pitch heading y)))) /\
+  is_derive (lin2 nav_rhs_C00 s_C00 s m y) 0 (s_C00 (pdelta s (lift s (errdynR s roll pitch heading y)))) /\
+  is_derive (lin2 nav_rhs_C01 s_C01 s m y) 0 (s_C01 (pdelta s (lift s (errdynR s roll pitch heading y)))) /\
+  is_derive (lin2 nav_rhs_C02 s_C02 s m y) 0 (s_C02 (pdelta s (lift s (errdynR s roll pitch heading y)))) /\
+  is_derive (lin2 nav_rhs_C10 s_C10 s m y) 0 (s_C10 (pdelta s (lift s (errdynR s roll pitch heading y)))) /\
+  is_derive (lin2 nav_rhs_C11 s_C11 s m y) 0 (s_C11 (pdelta s (lift s (errdynR s roll pitch heading y)))) /\
+  is_derive (lin2 nav_rhs_C12 s_C12 s m y) 0 (s_C12 (pdelta s (lift s (errdynR s roll pitch heading y)))) /\
+  is_derive (lin2 nav_rhs_C20 s_C20 s m y) 0 (s_C20 (pdelta s (lift s (errdynR s roll pitch heading y)))) /\
+  is_derive (lin2 nav_rhs_C21 s_C21 s m y) 0 (s_C21 (pdelta s (lift s (errdynR s roll pitch heading y)))) /\
+  is_derive (lin2 nav_rhs_C22 s_C22 s m y) 0 (s_C22 (pdelta s (lift s (errdynR s roll pitch heading y)))).
+Proof.
+  intros s roll pitch heading m y Hd Hl. splits.
+  - apply row2_lat; assumption.
+  - apply row2_lon; assumption.
+  - apply row2_alt; assumption.
+  - apply row2_VN; assumption.
+  - apply row2_VE; assumption.
+  - apply row2_VD; assumption.
+  - apply row2_C00; assumption.
+  - apply row2_C01; assumption.
+  - apply row2_C02; assumption.
+  - apply row2_C10; assumption.
+  - apply row2_C11; assumption.
+  - apply row2_C12; assumption.
+  - apply row2_C20; assumption.
+  - apply row2_C21; assumption.
+  - apply row2_C22; assumption.
+Qed.
+
